@@ -194,9 +194,11 @@ theorem C01_retemplate_dollar_literal_counterexample :
 
 /-- hence embedding an ALIGNED `$n` rendering as a sub-query IS building `clause.Expr{SQL: <the same text with ?>,
     Vars: vars}` (resp. `NamedExpr` when the text contains `@`) at the current position of the outer statement:
-    same output for every state and fuel, same specification -/
+    same output for every state and fuel, same specification (`hqd`: no placeholder of the rendering is directly
+    followed by a digit in the literal text) -/
 theorem C01_subquery_is_expr {β : Type} (segs : List Seg) (vars : List (Val β))
-    (hnd : NoDollar segs) (hal : phs segs = List.range' 1 vars.length) (n : Nat) (st : St β) :
+    (hnd : NoDollar segs) (hal : phs segs = List.range' 1 vars.length)
+    (hqd : qDigit (concretize .qmark segs) = false) (n : Nat) (st : St β) :
     let t := concretize .qmark segs
     let e : Val β := if containsSub t ['@'] then .nexpr t vars else .expr t vars false
     addVar .dollar (n + 1) (.rsub (concretize .dollar segs) vars) st = addVar .dollar (n + 1) e st ∧
@@ -204,7 +206,7 @@ theorem C01_subquery_is_expr {β : Type} (segs : List Seg) (vars : List (Val β)
   have hq : (concretize .qmark segs).contains '$' = false := by
     have := Bind.noDollar_concretize_qmark segs hnd
     simpa using this
-  simp only [addVar, spec, C01_retemplate segs vars.length hnd hal, hq]
+  simp only [addVar, spec, C01_retemplate segs vars.length hnd hal, hq, hqd]
   split <;> simp [addVar, spec]
 
 /-- **C01, sub-query re-numbering** (both branches of `AddVar case *DB`, stated for `$n`): embedding a well-formed
